@@ -1533,6 +1533,18 @@ def arr_handler(fn, e, env, hoist, pure):
     return None
 
 
+def area_handler(fn, e, env, hoist, pure):
+    """shp1.intersection(shp2).area, shp1.area, shp2.area: the three GEOS quantities of compute_affinity are parameters"""
+    if isinstance(e, ast.Attribute) and e.attr == "area":
+        v = e.value
+        if isinstance(v, ast.Name) and v.id in ("shp1", "shp2"):
+            return ("area1" if v.id == "shp1" else "area2"), Q
+        if (isinstance(v, ast.Call) and isinstance(v.func, ast.Attribute) and v.func.attr == "intersection" and isinstance(v.func.value, ast.Name)
+                and v.func.value.id == "shp1" and len(v.args) == 1 and isinstance(v.args[0], ast.Name) and v.args[0].id == "shp2" and not v.keywords):
+            return "inter_area", Q
+    return None
+
+
 def mat_handler(fn, e, env, hoist, pure):
     """cost_matrix[i, j] on the affinity matrix (a numpy array indexed by a pair of ints)"""
     if isinstance(e, ast.Subscript) and isinstance(e.value, ast.Name) and e.value.id in env and env[e.value.id][1] == ("M",) and isinstance(e.slice, ast.Tuple) and len(e.slice.elts) == 2:
@@ -1788,6 +1800,11 @@ def generate(src_root: Path) -> tuple[str, dict]:
     # ---- C06
     type_set("evaluation/affinity.py", "TIME_GEOMETRY_TYPES", "[TTimeStamp; TTimeInterval]")
     type_set("evaluation/affinity.py", "BUFFER_GEOMETRY_TYPES", "[TTimeStamp; TPoint; TMultiPoint; TLineString; TMultiLineString]")
+    # the area branch of compute_affinity: everything up to `shp2 = geometry_to_shapely(geometry2)` is skipped (preparation and
+    # dispatch are C06's correspondence); the two areas and the intersection area, GEOS quantities, are parameters
+    unit("compute_affinity_area_tail", "evaluation/affinity.py", "compute_affinity",
+         {"drop_params": ["geometry1", "geometry2", "time_buffer", "freq_buffer"], "skip_until_assigned": "shp2",
+          "extra_params": {"area1": "Q", "area2": "Q", "inter_area": "Q"}, "custom": [area_handler], "ret": "Q"})
     unit("compute_affinity_in_time", "evaluation/affinity.py", "compute_affinity_in_time",
          {"params": {"geometry1": "G", "geometry2": "G"}, "ret": "Q", "calls": {"compute_bounds": BOUNDS_CALL}},
          "Definition compute_affinity_in_time (geometry1 geometry2 : geom) : res Q :=\n"
